@@ -36,6 +36,9 @@ partial def parseCExpr (tp : TimeParser τ) : Sexp → CExpr τ
   | .list [.atom "tracked2", x, op, y] => .tracked2 x.nat! op.nat! y.nat!
   | .list [.atom "reslevel", r, op, .list am] => .resLevel r.nat! op.nat! (am.map Sexp.int!)
   | .list [.atom "ref", n] => .ref n.nat!
+  | .list [.atom "delay", d] => .delay (tm tp d)
+  | .list [.atom "and", a, b] => .andOp (parseCExpr tp a) (parseCExpr tp b)
+  | .list [.atom "or", a, b] => .orOp (parseCExpr tp a) (parseCExpr tp b)
   | _ => .eternity
 
 def parsePat : Sexp → Pat
@@ -185,7 +188,11 @@ def runScenario (tp : TimeParser τ) (x : Sexp) : String :=
         w.acts.toList.foldl (fun (w : World τ) (act : Activity τ) =>
           if act.status == .suspended && act.label < 10000 then
             act.frames.foldl (fun (w : World τ) f => match f with
-              | .awaitMark c => if w.eval c then
+              | .awaitMark c => if w.eval c && !(match (w.cond c).kind with | .delay _ => true | _ => false) then
+                  { w with trace := { time := w.time, turn := w.turn, act := 0, label := act.label, tag := "stuck", args := [] } :: w.trace }
+                else w
+              -- (an `await task` whose task is done)
+              | .taskResult t _ => if w.eval (w.task t).done then
                   { w with trace := { time := w.time, turn := w.turn, act := 0, label := act.label, tag := "stuck", args := [] } :: w.trace }
                 else w
               | _ => w) w
